@@ -142,7 +142,11 @@ func init() {
 			a := sym.Abs(t)
 			pow := func(k uint) *sym.Term { return sym.Int(new(big.Int).Lsh(big.NewInt(1), k)) }
 			if !x.branch(sym.Lt(a, pow(256))) {
-				panic(abortPath{"Bits of symbolic big.Int above 2^256"})
+				ts := t.String()
+				if len(ts) > 160 {
+					ts = ts[:160]
+				}
+				panic(abortPath{"Bits of symbolic big.Int above 2^256: " + ts})
 			}
 			n := sym.Ite(sym.Eq(t, sym.Int64(0)), sym.Int64(0),
 				sym.Ite(sym.Lt(a, pow(64)), sym.Int64(1),
